@@ -662,6 +662,9 @@ func (kcp *KCP) Input(data []byte, pktType PacketType, ackNoDelay bool) int {
 			kcp.debugLog(IKCP_LOG_IN_ACK, "conv", conv, "sn", sn, "una", una, "ts", ts, "rto", kcp.rx_rto)
 			kcp.parse_ack(sn)
 			flushSegments |= kcp.parse_fastack(sn, ts)
+			// as upstream does: the acknowledgement may have freed the head of the
+			// send buffer, and no later segment or packet need follow to notice it
+			kcp.shrink_buf()
 			updateRTT |= 1
 			latest = ts
 		case IKCP_CMD_PUSH:
